@@ -10,6 +10,7 @@ mkdir -p work evidence replays
 harness/target/debug/tw-harness tables work/cw.tbl work/alnum.tbl
 harness/target-min/debug/tw-harness tables work/cw-min.tbl work/alnum-min.tbl
 python3 tools/gen_width_table.py work/cw.tbl coq/gen/WidthTable.v
+python3 tools/gen_src_consts.py
 (cd coq && coq_makefile -f _CoqProject -o Makefile && make -j16) > work/coq-build.log 2>&1 || { tail -50 work/coq-build.log; exit 1; }
 sh ocaml/build.sh
 echo setup done
